@@ -40,9 +40,16 @@ impl Authorizer {
             Some(execution_time) => Ok(execution_time),
             None => {
                 let start = Instant::now();
-                self.world
-                    .run_with_limits(&self.symbols, self.limits.clone())?;
+                let res = self
+                    .world
+                    .run_with_limits(&self.symbols, self.limits.clone());
                 let execution_time = start.elapsed();
+                if let Err(e) = res {
+                    // the facts derived so far are kept, so the time it took to derive
+                    // them must still count against the budget of the next calls
+                    self.limits.max_time = self.limits.max_time.saturating_sub(execution_time);
+                    return Err(e.into());
+                }
                 self.execution_time = Some(execution_time);
                 Ok(execution_time)
             }
